@@ -1,9 +1,13 @@
 --------------------------- MODULE DialogueTrace ---------------------------
 (* Recorded dialogues of the real Question / ChoiceQuestion / ConfirmationQuestion checked against Dialogue.
-   A trace = the questions asked one after the other on ONE input (script + end of input).
-   event: [q      : the question (see Dialogue),
+   A trace = the questions asked one after the other on one or several inputs (sessions: script + end of input);
+   a question OBJECT may be asked more than once (reask), also on a later input; the caller may have changed the choice
+   list between building the object (q.built) and asking (q.choices).
+   event: [q      : the question (see Dialogue), sess : number of the input, obj : number of the question object,
+           reask  : this object was asked before,
            script : all lines of the input, start : lines consumed before this ask,
-           obs    : [kind ("ret"|"exc"|"budget"), cls, val [t,s,l,b], reads, consumed, errs, prompts, outBytes, errBytes]]
+           obs    : [kind ("ret"|"exc"|"budget"), cls, val [t,s,l,b], reads, consumed, errs, prompts, outBytes, errBytes,
+                     maxAfter (max_attempts of the object after the dialogue, 0 = unlimited)]]
    P-clauses: the operators of Dialogue's P-layer on the observation.  A-clauses: agreement with the A-layer
    run from the same question and position.                                                                *)
 EXTENDS Dialogue, TraceKit
@@ -45,20 +49,27 @@ RejectKey(qq, sc, st, o) ==
 AttemptsKey(qq, sc, st, o) ==
   IF qq.maxAtt > 0 /\ o.reads > qq.maxAtt THEN "late"
   ELSE IF o.consumed >= 1 /\ HasLT(sc[st + o.consumed]) THEN "early/markup" ELSE "early"   \* the last entry read has a "<"
+\* keys stay short: TLC wraps tuples wider than 80 columns
+Edited(qq) == qq.built # qq.choices
+KeyE(qq, k) == IF Edited(qq) THEN "list-edited" ELSE k
 
 Clauses(e) ==
   LET qq == e.q
       sc == e.script
       st == e.start
       o == e.obs
-  IN /\ Check(tid, l, "H.chain", "", l > 1 => (sc = T[l - 1].script /\ st = T[l - 1].start + T[l - 1].obs.consumed))
+  IN /\ Check(tid, l, "H.chain", "", IF l > 1 /\ T[l - 1].sess = e.sess
+                                      THEN sc = T[l - 1].script /\ st = T[l - 1].start + T[l - 1].obs.consumed
+                                      ELSE st = 0)
+     /\ Check(tid, l, "H.object", "", e.reask = (\E j \in 1..(l - 1) : T[j].obj = e.obj)
+                                      /\ \A j \in 1..(l - 1) : T[j].obj = e.obj => T[j].q = qq)
      /\ Check(tid, l, "H.sane", "", HSane(sc, st, o))
      /\ Check(tid, l, "P.terminates", TermKey(o), PTerminates(o))
      /\ Check(tid, l, "P.noninteractive", "", PNonInteractive(qq, o))
-     /\ Check(tid, l, "P.member", "", PMember(qq, o))
-     /\ Check(tid, l, "P.accept", AcceptKey(qq, sc, st, o), PAccept(qq, sc, st, o))
-     /\ Check(tid, l, "P.reject", RejectKey(qq, sc, st, o), PReject(qq, sc, st, o))
-     /\ Check(tid, l, "P.attempts", AttemptsKey(qq, sc, st, o), PAttempts(qq, o))
+     /\ Check(tid, l, "P.member", KeyE(qq, ""), PMember(qq, o))
+     /\ Check(tid, l, "P.accept", KeyE(qq, AcceptKey(qq, sc, st, o)), PAccept(qq, sc, st, o))
+     /\ Check(tid, l, "P.reject", KeyE(qq, RejectKey(qq, sc, st, o)), PReject(qq, sc, st, o))
+     /\ Check(tid, l, "P.attempts", AttemptsKey(qq, sc, st, o) \o (IF e.reask THEN "/re-asked" ELSE ""), PAttempts(qq, o))
      /\ Check(tid, l, "P.errors", "", PErrors(qq, o))
      /\ Check(tid, l, "P.eof", "", PEof(qq, o))
      /\ Check(tid, l, "P.confirm", "", PConfirm(qq, sc, st, o))
@@ -68,6 +79,7 @@ Clauses(e) ==
      /\ Note(tid, l, "A.errors", o.errs = obs.errs)
      /\ Note(tid, l, "A.prompts", o.prompts = obs.prompts)
      /\ Note(tid, l, "A.stdout", o.outBytes = 0)
+     /\ Note(tid, l, "A.object", o.maxAfter = qq.maxAtt /\ ObjectIntact)
 
 \* the next question starts where the real execution stopped reading
 TCompare ==
